@@ -62,10 +62,13 @@ def _gen_job(genset, seed):
     return ("ReconfigGen", "ReconfigGen.cfg", {"timeout": 1500, "consts": 'CONSTANT GenSet = "%s"\nCONSTANT Seed = %d' % (genset, seed)})
 
 
+_TMP = {}   # the harness creates its databases under the check's scratch directory
+
+
 def _replay(vh, domain, behs, negative=False, workers=8, keep_loggers=False):
     args = ["rc-replay", "-workers", str(workers)] + (["-negative"] if negative else []) + (["-keeploggers"] if keep_loggers else [])
     lines = [json.dumps(domain, separators=(",", ":"))] + [json.dumps(b, separators=(",", ":")) for b in behs]
-    rc, outs, err = vlib.run_vh(vh, args, stdin_lines=lines, timeout=3000)
+    rc, outs, err = vlib.run_vh(vh, args, stdin_lines=lines, timeout=3000, env_extra=_TMP)
     summ = [o for o in outs if o.get("summary")]
     vlib.require(summ and summ[0]["behaviours"] == len(behs), "replay did not process all behaviours")
     return outs, summ[0]
@@ -126,10 +129,11 @@ def main():
     thorough = run.tier == "thorough"
     vh = vlib.build_vh(FAMILY)
     with vlib.Scratch("verif-c27-") as sc:
+        _TMP["TMPDIR"] = sc
         genset = "thorough" if thorough else "quick"
         jobs = {"mc": ("ReconfigMC", "ReconfigMC.cfg", {"coverage": True, "timeout": 1500,
                                                          "consts": "CONSTANT MaxPackets = %d\nCONSTANT MaxUpdates = %d" %
-                                                         ((4, 3) if thorough else (3, 3))}),
+                                                         ((4, 3) if thorough else (2, 3))}),
                 "mc-neg-loss": ("ReconfigMC", "ReconfigMCNegLoss.cfg", {"timeout": 900}),
                 "mc-neg-equals": ("ReconfigMC", "ReconfigMCNegEquals.cfg", {"timeout": 900}),
                 "gen": _gen_job(genset, run.seed)}
@@ -172,11 +176,12 @@ def main():
             run.distinct(json.dumps([s["act"] for s in b], sort_keys=True))
         run.sample({"kind": "configuration history", "steps": [(s["act"]["name"], s["act"].get("cfg")) for s in behs[len(behs) // 2]][:7]})
         classes = collections.Counter()
+        found = []   # (descriptor, replay object); reported at the end, one representative per class first
         for o in outs:
             if o.get("ok") is False:
                 classes[o["desc"].get("cls")] += 1
-                run.violation(o["desc"], {"kind": "rc-replay", "domain": domain, "behaviour": o.get("behaviour"), "step": o.get("step"),
-                                          "keep_loggers": False, "msg": o.get("msg", "")[:2500]})
+                found.append((o["desc"], {"kind": "rc-replay", "domain": domain, "behaviour": o.get("behaviour"), "step": o.get("step"),
+                                          "keep_loggers": False, "msg": o.get("msg", "")[:2500]}))
 
         # restart stress with the manager's error-logging goroutines kept alive (as in goProbe): a restarted capture must survive
         copies = 24 if thorough else 8
@@ -191,9 +196,9 @@ def main():
                     # disappearing at some point of the observation
                     o["desc"] = dict(o["desc"], symptom=o["desc"]["cls"], cls="restarted-capture-torn-down")
                 classes[o["desc"].get("cls")] += 1
-                run.violation(o["desc"], {"kind": "rc-replay", "domain": domain, "behaviour": o.get("behaviour"), "step": o.get("step"),
+                found.append((o["desc"], {"kind": "rc-replay", "domain": domain, "behaviour": o.get("behaviour"), "step": o.get("step"),
                                           "keep_loggers": True, "msg": o.get("msg", "")[:2500],
-                                          "note": "timing dependent: re-run the replay several times"})
+                                          "note": "timing dependent: re-run the replay several times"}))
 
         # negative control F: one expected database count changed at the last step of every behaviour
         nouts, nsumm = _replay(vh, domain, short, negative=True)
@@ -209,7 +214,7 @@ def main():
         nhist, maxlen = (80, 3) if thorough else (30, 2)
         p = subprocess.run([vh, "rc-drive", "-seed", str(run.seed), "-managers", str(managers), "-maxlen", str(maxlen),
                             "-histories", str(nhist), "-workers", "8"], input=json.dumps(domain) + "\n",
-                           stdout=subprocess.PIPE, stderr=subprocess.PIPE, text=True, timeout=3000)
+                           stdout=subprocess.PIPE, stderr=subprocess.PIPE, text=True, timeout=3000, env=dict(os.environ, TMPDIR=sc))
         if p.returncode != 0:
             raise vlib.MachineryError("rc-drive failed: " + p.stderr[-2000:])
         lines = p.stdout.splitlines()
@@ -236,8 +241,8 @@ def main():
             ev = json.loads(lines[ln - 1]) if 0 < ln <= len(lines) else None
             # the events of this manager up to the rejected one reproduce the case
             hist = [json.loads(x) for x in lines[:ln] if ev and '"hist":%d,"mgr":%d,' % (ev["hist"], ev["mgr"]) in x]
-            run.violation(desc, {"kind": "rc-trace", "model": {k: v for k, v in mm.items() if k != "witness"}, "witness": str(mm.get("witness"))[:600],
-                                 "events": hist, "cmd": "vh rc-drive -seed %d -managers %d -maxlen %d -histories %d" % (run.seed, managers, maxlen, nhist)})
+            found.append((desc, {"kind": "rc-trace", "model": {k: v for k, v in mm.items() if k != "witness"}, "witness": str(mm.get("witness"))[:600],
+                                 "events": hist, "cmd": "vh rc-drive -seed %d -managers %d -maxlen %d -histories %d" % (run.seed, managers, maxlen, nhist)}))
         # negative control B: corrupt one accepted Update event; TLC must reject exactly there
         skipped_mgrs = set()
         for ln in bad_lines:
@@ -261,6 +266,14 @@ def main():
         run.cov["negative_control_B"] = "corrupted database count at event %d rejected" % (target + 1)
         if classes:
             run.cov["failing_cases_by_class"] = dict(classes)
+        # report: the first case of every class (and binding) first, so that each class is among the printed violations
+        first, rest, seen = [], [], set()
+        for desc, rep in found:
+            k = (desc.get("cls"), desc.get("symptom"), desc.get("binding"))
+            (rest if k in seen else first).append((desc, rep))
+            seen.add(k)
+        for desc, rep in first + rest:
+            run.violation(desc, rep)
 
     run.cov["rule"] = ("distinct = distinct configuration histories (with window flag) replayed; F covers all histories of length <= %s over "
                        "11 configurations x {no window traffic, window traffic}%s, restart stress; B: %d histories with overlapping patterns x %d fresh "
